@@ -175,3 +175,10 @@ def run(ctx: Ctx, rep: Report, tier: str):
     rep.rule("C04.R8", "the engine's own move-aside (.conflicted temp rename) is never mistaken for a user rename: TEMP_RENAME is flagged on the entry "
            "whose file was moved (C03.R6), so a one-sided rename cycle ends with each object only at its new path", 2)
     temp_rename_on_moved_entry(ctx, rep, "C04.R8")
+    from rules.common import definition_holds
+    rep.rule("C04.R9", "when two renames conflict: path_conflict is true exactly for an entry that was synced, exists on both sides, whose two paths no longer correspond "
+             "and BOTH of which moved away from their last-synced path (and is no engine temp rename); is_path_change / is_rename as defined; is_trash = no id on either side", 4)
+    definition_holds(ctx, rep, "C04.R9", "SyncManager.path_conflict", "a one-sided rename is treated as a two-sided conflict (split / .conflicted artefact) or a real rename conflict is not noticed")
+    definition_holds(ctx, rep, "C04.R9", "SyncEntry.is_path_change", "a rename is not propagated as a rename")
+    definition_holds(ctx, rep, "C04.R9", "SyncEntry.is_rename", "a rename is not propagated as a rename")
+    definition_holds(ctx, rep, "C04.R9", "SyncEntry.is_trash", "a live entry's row is deleted / a dead one kept")
